@@ -251,7 +251,7 @@ var c17Signals = map[string]*c17Signal{"logs": c17Logs, "traces": c17Traces, "me
 
 type c17Send struct {
 	Shape c17Shape `json:"shape"`
-	MD    string   `json:"metadata"` // "" absent | "a" | "b" | "a,b"
+	MD    string   `json:"metadata"` // value list of key k, ";"-separated: "" absent | "a" | "a;b" two values | "a,b" ONE value | "<empty>" the empty value
 	WaitMs int     `json:"wait_ms,omitempty"` // virtual time the producer lets pass before this send
 }
 
@@ -308,7 +308,7 @@ func c17Body(c *c17Case, o *c17Obs) func() {
 			}
 			md := ""
 			if len(c.Keys) > 0 {
-				md = strings.Join(client.FromContext(ctx).Metadata.Get(c.Keys[0]), ",")
+				md = c17MDString(client.FromContext(ctx).Metadata.Get(c.Keys[0]))
 			}
 			o.batches = append(o.batches, c17Batch{items: items, md: md, at: vs.Now().Sub(t0), size: len(items)})
 			for _, it := range items {
@@ -378,7 +378,7 @@ func c17Body(c *c17Case, o *c17Obs) func() {
 					}
 					ctx := context.Background()
 					if sd.MD != "" {
-						ctx = client.NewContext(ctx, client.Info{Metadata: client.NewMetadata(map[string][]string{"k": strings.Split(sd.MD, ",")})})
+						ctx = client.NewContext(ctx, client.Info{Metadata: client.NewMetadata(map[string][]string{"k": c17MDVals(sd.MD)})})
 					}
 					ids, err := consume(ctx, sd.Shape, &ctr)
 					for _, id := range ids {
@@ -708,12 +708,42 @@ func TestVerif(t *testing.T) {
 	cases = append(cases, &c17Case{Signal: "metrics", Size: 2, Max: 2, TimeoutMs: 1000, Producers: [][]c17Send{{{Shape: c17Shape{{{1, 2}}}}}, {{Shape: c17Shape{{{2}}}}}}, Concurrent: false})
 	// metadata keys and cardinality limit
 	cases = append(cases, &c17Case{Signal: "logs", Size: 2, Max: 2, TimeoutMs: 1000, Keys: []string{"k"}, Producers: [][]c17Send{{{Shape: one(1), MD: "a"}, {Shape: one(2), MD: "b"}}, {{Shape: one(1), MD: "a"}, {Shape: one(1), MD: ""}}}, Concurrent: false})
-	cases = append(cases, &c17Case{Signal: "logs", Size: 3, Max: 0, TimeoutMs: 1000, Keys: []string{"k"}, Limit: 1, Producers: [][]c17Send{{{Shape: one(1), MD: "a"}, {Shape: one(1), MD: "a,b"}}, {{Shape: one(1), MD: "b"}}}, Concurrent: false})
-	cases = append(cases, &c17Case{Signal: "traces", Size: 2, Max: 0, TimeoutMs: 1000, Keys: []string{"k"}, Producers: [][]c17Send{{{Shape: one(1), MD: "a,b"}}, {{Shape: one(1), MD: "b,a"}, {Shape: one(1), MD: "a"}}}, Concurrent: true})
+	cases = append(cases, &c17Case{Signal: "logs", Size: 3, Max: 0, TimeoutMs: 1000, Keys: []string{"k"}, Limit: 1, Producers: [][]c17Send{{{Shape: one(1), MD: "a"}, {Shape: one(1), MD: "a;b"}}, {{Shape: one(1), MD: "b"}}}, Concurrent: false})
+	cases = append(cases, &c17Case{Signal: "traces", Size: 2, Max: 0, TimeoutMs: 1000, Keys: []string{"k"}, Producers: [][]c17Send{{{Shape: one(1), MD: "a;b"}}, {{Shape: one(1), MD: "b;a"}, {Shape: one(1), MD: "a"}}}, Concurrent: true})
+	// value lists that differ only in how they are cut: two values vs one value with a comma; no value vs the empty value
+	cases = append(cases, &c17Case{Signal: "logs", Size: 2, Max: 0, TimeoutMs: 1000, Keys: []string{"k"}, Producers: [][]c17Send{{{Shape: one(1), MD: "a;b"}}, {{Shape: one(1), MD: "a,b"}}}, Concurrent: false})
+	cases = append(cases, &c17Case{Signal: "metrics", Size: 2, Max: 0, TimeoutMs: 1000, Keys: []string{"k"}, Producers: [][]c17Send{{{Shape: one(1), MD: ""}}, {{Shape: one(1), MD: "<empty>"}}}, Concurrent: false})
 	for _, c := range cases {
 		explore(c, bound, "concurrent")
 	}
 	ctx.R.States = ctx.R.Evals + nodes
 	ctx.R.Extra["bound_completed"] = bound
 	_ = sort.Strings
+}
+
+
+// c17MDVals / c17MDString: the harness's spelling of a metadata value list (see c17Send.MD); injective, unlike a comma join
+func c17MDVals(md string) []string {
+	if md == "" {
+		return nil
+	}
+	var out []string
+	for _, v := range strings.Split(md, ";") {
+		if v == "<empty>" {
+			v = ""
+		}
+		out = append(out, v)
+	}
+	return out
+}
+
+func c17MDString(vals []string) string {
+	var out []string
+	for _, v := range vals {
+		if v == "" {
+			v = "<empty>"
+		}
+		out = append(out, v)
+	}
+	return strings.Join(out, ";")
 }
